@@ -33,7 +33,14 @@ func (w *World) Client() kubernetes.Interface {
 			return true, nil, apierrors.NewNotFound(nodeGR, name)
 		}
 		e.Before = n.DeepCopy()
-		return true, n.DeepCopy(), nil
+		out := n.DeepCopy()
+		if hook := w.AfterGet[name]; hook != nil {
+			// another client writes the node right after this read (the copy handed out is already stale)
+			delete(w.AfterGet, name)
+			hook(n)
+			w.bumpRV(n)
+		}
+		return true, out, nil
 	})
 	cs.AddReactor("update", "nodes", func(a k8stesting.Action) (bool, runtime.Object, error) {
 		obj := a.(k8stesting.UpdateAction).GetObject().(*v1.Node)
@@ -43,12 +50,22 @@ func (w *World) Client() kubernetes.Interface {
 		}
 		if w.decide(OpK8sUpdate, obj.Name) == Fail {
 			e.Err = "injected"
+			if e.Before != nil && obj.ResourceVersion != "" && obj.ResourceVersion != e.Before.ResourceVersion {
+				e.Err = "conflict" // it would have been refused as stale anyway
+			}
 			return true, nil, errors.New("injected update failure")
 		}
 		for i, n := range w.Nodes {
 			if n.Name == obj.Name {
-				w.Nodes[i] = obj.DeepCopy()
-				return true, obj.DeepCopy(), nil
+				// optimistic concurrency: an update that carries a resource version must carry the current one
+				if obj.ResourceVersion != "" && obj.ResourceVersion != n.ResourceVersion {
+					e.Err = "conflict"
+					return true, nil, apierrors.NewConflict(nodeGR, obj.Name, errors.New("the object has been modified; please apply your changes to the latest version and try again"))
+				}
+				stored := obj.DeepCopy()
+				w.bumpRV(stored)
+				w.Nodes[i] = stored
+				return true, stored.DeepCopy(), nil
 			}
 		}
 		e.Err = "notfound"
